@@ -208,14 +208,15 @@ pub fn event_position(board: &BoardState, draw_table: &DrawTable) {
     });
 }
 
-pub fn event_go(board: &BoardState, slice_ms: u128) {
+pub fn event_go(board: &BoardState, slice_ms: u128, draw_table: &DrawTable) {
     with_sink(|f, seq| {
         let _ = writeln!(
             f,
-            "{{\"ev\":\"go_start\",\"seq\":{},\"slice\":\"{}\",\"board\":{}}}",
+            "{{\"ev\":\"go_start\",\"seq\":{},\"slice\":\"{}\",\"board\":{},\"table\":{}}}",
             seq,
             slice_ms,
-            board_json(board)
+            board_json(board),
+            table_json(draw_table)
         );
     });
 }
